@@ -6,6 +6,7 @@ import (
 	"io"
 
 	"github.com/junegunn/fzf/src/algo"
+	"github.com/junegunn/fzf/src/tui"
 	"github.com/junegunn/fzf/src/util"
 )
 
@@ -306,3 +307,57 @@ func VerifReplacePlaceholder(template string, query string, items []*Item, delim
 }
 
 func VerifEscapeSingleQuote(s string) string { return escapeSingleQuote(s) }
+
+// --- ansi.go ---
+
+type VerifAnsiState struct {
+	Fg, Bg, Attr, Lbg int
+	HasURL            bool
+	URI, Params       string
+}
+
+type VerifAnsiOffset struct {
+	Begin, End int
+	Color      VerifAnsiState
+}
+
+func verifFromState(s ansiState) VerifAnsiState {
+	v := VerifAnsiState{Fg: int(s.fg), Bg: int(s.bg), Attr: int(s.attr), Lbg: int(s.lbg)}
+	if s.url != nil {
+		v.HasURL, v.URI, v.Params = true, s.url.uri, s.url.params
+	}
+	return v
+}
+
+func VerifNextAnsiEscapeSequence(s string) (int, int) { return nextAnsiEscapeSequence(s) }
+
+func VerifExtractColor(str string, prev *VerifAnsiState) (string, []VerifAnsiOffset, *VerifAnsiState, bool) {
+	var st *ansiState
+	if prev != nil {
+		st = &ansiState{fg: tui.Color(prev.Fg), bg: tui.Color(prev.Bg), attr: tui.Attr(prev.Attr), lbg: tui.Color(prev.Lbg)}
+		if prev.HasURL {
+			st.url = &url{uri: prev.URI, params: prev.Params}
+		}
+	}
+	trimmed, offsets, newState := extractColor(str, st, nil)
+	var outOffsets []VerifAnsiOffset
+	if offsets != nil {
+		for _, o := range *offsets {
+			outOffsets = append(outOffsets, VerifAnsiOffset{int(o.offset[0]), int(o.offset[1]), verifFromState(o.color)})
+		}
+	}
+	var outState *VerifAnsiState
+	if newState != nil {
+		v := verifFromState(*newState)
+		outState = &v
+	}
+	return trimmed, outOffsets, outState, offsets != nil
+}
+
+func (v VerifAnsiState) VerifToString() string {
+	st := ansiState{fg: tui.Color(v.Fg), bg: tui.Color(v.Bg), attr: tui.Attr(v.Attr), lbg: tui.Color(v.Lbg)}
+	if v.HasURL {
+		st.url = &url{uri: v.URI, params: v.Params}
+	}
+	return st.ToString()
+}
